@@ -594,6 +594,23 @@ impl Session {
                 Ok(t) => json!({"ok": true, "kind": "focus", "tid": t.pid.as_raw()}),
                 Err(e) => self.err_json(e),
             },
+            "call_fn" => {
+                // one injected call in the thread in focus; ALL registers of that thread (orig_rax
+                // included: it decides whether an interrupted system call is restarted) before / after
+                use bugstalker::debugger::variable::dqe::Literal;
+                let tid = self.d().ecx().pid_on_focus();
+                let args: Vec<Literal> = cmd["args"].as_array().map(|a| a.iter().filter_map(|x| x.as_i64().map(Literal::Int)).collect()).unwrap_or_default();
+                let all = |r: &libc::user_regs_struct| -> Vec<u64> { vec![r.rax, r.rbx, r.rcx, r.rdx, r.rsi, r.rdi, r.rbp, r.rsp, r.r8, r.r9, r.r10, r.r11, r.r12, r.r13, r.r14, r.r15, r.rip, r.eflags & !0x10100, r.fs_base, r.gs_base, r.orig_rax, r.cs, r.ss] };
+                let before = nix::sys::ptrace::getregs(tid).ok().map(|r| all(&r));
+                let res = self.d().call(&s("name"), &args);
+                let after = nix::sys::ptrace::getregs(tid).ok().map(|r| all(&r));
+                let names = ["rax", "rbx", "rcx", "rdx", "rsi", "rdi", "rbp", "rsp", "r8", "r9", "r10", "r11", "r12", "r13", "r14", "r15", "rip", "eflags", "fs_base", "gs_base", "orig_rax", "cs", "ss"];
+                let diff: Vec<Value> = match (&before, &after) {
+                    (Some(b), Some(a)) => (0..b.len()).filter(|i| b[*i] != a[*i]).map(|i| json!([names[i], b[i], a[i]])).collect(),
+                    _ => vec![json!(["unreadable", 0, 0])],
+                };
+                json!({"ok": true, "tid": tid.as_raw(), "call_ok": res.is_ok(), "call_err": res.err().map(|e| format!("{e}")), "orig_rax_before": before.as_ref().map(|b| b[20] as i64), "diff": diff})
+            }
             "values" => crate::valw::values(self, cmd),
             "dqe" => crate::valw::dqe(self, cmd),
             "vard" => crate::valw::vard(self, cmd),
@@ -756,7 +773,7 @@ impl Session {
                     "real".into(),
                     json!({"pc": r.rip, "sp": r.rsp, "regs": reftrace::hash_regs(&r),
                            "mem": if self.main_entry_sp != 0 { reftrace::hash_mem(pid, r.rsp, top, &self.elf.regions) } else { 0 },
-                           "rdi": r.rdi}),
+                           "rdi": r.rdi, "orig_rax": r.orig_rax as i64}),
                 );
             }
             // debug registers of every thread, read independently
